@@ -5,7 +5,10 @@ evaluator (value per (vector, realization, function) chosen by the generator, Na
 layout, evaluations, failed_realizations, objective_weights/constraint_weights, every objective and
 constraint value and the weighted objective are compared inside Coq with Model/Ensemble.v
 (Chk_C01.check_case).  The weight vector of each realization filter is observed from the real filter
-plug-in (the filters themselves are C04/C05) and is an input of the model.
+plug-in (the filters themselves are C04/C05) and is an input of the model.  Per case the results are obtained
+either directly from calculate() (optionally after other calculate() calls on the same object) or from the
+FINISHED_EVALUATION event of an evaluator step / of an optimizer step driven by a scripted optimizer; for the
+steps the exit code is compared with the model as well.
 """
 from __future__ import annotations
 
